@@ -35,16 +35,30 @@ def run_mode(exe, data, mode, n, env, workdir, frag=None, timeout=120):
                     p.stdin.close()
                 except Exception:
                     pass
-            t = threading.Thread(target=feed)
+            t = threading.Thread(target=feed, daemon=True)
             t.start()
+            # reader threads + a bounded wait: a hanging program must not block this harness (reading the pipes inline would)
+            bufs = {"o": b"", "e": b""}
+
+            def rd(f, k):
+                try:
+                    bufs[k] = f.read()
+                except Exception:
+                    pass
+            rt = [threading.Thread(target=rd, args=(p.stdout, "o"), daemon=True), threading.Thread(target=rd, args=(p.stderr, "e"), daemon=True)]
+            for x in rt:
+                x.start()
             try:
-                out = p.stdout.read()
-                err = p.stderr.read()
-                rc = p.wait(timeout=timeout)
+                rc = p.wait(timeout=vlib.hang_timeout(timeout))
             except subprocess.TimeoutExpired:
                 p.kill()
-                rc, out, err = 124, b"", b"[timeout]"
-            t.join()
+                p.wait()
+                vlib.note_hang()
+                rc = 124
+            for x in rt:
+                x.join(5)
+            t.join(5)
+            out, err = (bufs["o"], bufs["e"]) if rc != 124 else (b"", b"[timeout]")
             return rc, out, err.decode("latin-1")
         rc, out, err = vlib.shb([exe, "-dc", "-n%d" % n], env=e, timeout=timeout, input=data)
         return rc, out, err.decode("latin-1")
